@@ -783,3 +783,4 @@ EXPLANATION += (' Round 6: ' + 'SKIP/ignored-notes-cannot-raise: a raise that de
 EXPLANATION += (' Round 7: ' + "DEC/start-frame-zero-is-a-frame; WINDOW/onset-length-clamp; DEC/silent-pitch-start recognises a sentinel representation of 'not sounding'.")
 EXPLANATION += (' Rounds 9-10: ' + 'SKIP/column-in-range (pitch 20 / 109 against the guards of every column store); FRAME/scenarios (frames_from_times evaluated on eight cases).')
 EXPLANATION += (' Round 11: ' + 'DEC/one-column-index; VELO/rows-are-the-active-rows.')
+EXPLANATION += (' Round 12: ' + 'two FRAME scenarios with a positive occupancy.')
